@@ -474,44 +474,44 @@ func appendIsFresh(v ssa.Value) bool {
 // calls; receiver = -1 for invokes) of written arguments.
 var ifaceMethodWrites = map[string][]int{
 	// method name: written args; -1 = receiver
-	"Write":         {-1},
-	"Reset":         {-1},
-	"Sum":           {0},     // hash.Hash.Sum(b) appends to b
-	"Read":          {-1, 0}, // io.Reader
-	"Encrypt":       {0},     // cipher.Block.Encrypt(dst, src)
-	"Decrypt":       {0},
-	"CryptBlocks":   {-1, 0},
-	"XORKeyStream":  {-1, 0},
-	"Seal":          {0},
-	"Open":          {0},
-	"Close":         {-1},
-	"Put":           {-1},
-	"SetDeadline":   {-1},
+	"Write":           {-1},
+	"Reset":           {-1},
+	"Sum":             {0},     // hash.Hash.Sum(b) appends to b
+	"Read":            {-1, 0}, // io.Reader
+	"Encrypt":         {0},     // cipher.Block.Encrypt(dst, src)
+	"Decrypt":         {0},
+	"CryptBlocks":     {-1, 0},
+	"XORKeyStream":    {-1, 0},
+	"Seal":            {0},
+	"Open":            {0},
+	"Close":           {-1},
+	"Put":             {-1},
+	"SetDeadline":     {-1},
 	"SetReadDeadline": {-1}, "SetWriteDeadline": {-1},
 }
 
 var stdlibFuncWrites = map[string][]int{
-	"io.ReadFull":            {0, 1},
-	"io.ReadAtLeast":         {0, 1},
-	"io.Copy":                {0, 1},
-	"io.CopyN":               {0, 1},
-	"encoding/hex.Decode":    {0},
-	"encoding/hex.Encode":    {0},
-	"encoding/asn1.Unmarshal": {1},
-	"encoding/asn1.UnmarshalWithParams": {1},
-	"encoding/json.Unmarshal": {1},
-	"crypto/rand.Read":       {0},
-	"crypto/subtle.ConstantTimeCopy": {1},
-	"sort.Sort":              {0},
-	"sort.Slice":             {0},
-	"(encoding/binary.bigEndian).PutUint16": {1},
-	"(encoding/binary.bigEndian).PutUint32": {1},
-	"(encoding/binary.bigEndian).PutUint64": {1},
+	"io.ReadFull":                              {0, 1},
+	"io.ReadAtLeast":                           {0, 1},
+	"io.Copy":                                  {0, 1},
+	"io.CopyN":                                 {0, 1},
+	"encoding/hex.Decode":                      {0},
+	"encoding/hex.Encode":                      {0},
+	"encoding/asn1.Unmarshal":                  {1},
+	"encoding/asn1.UnmarshalWithParams":        {1},
+	"encoding/json.Unmarshal":                  {1},
+	"crypto/rand.Read":                         {0},
+	"crypto/subtle.ConstantTimeCopy":           {1},
+	"sort.Sort":                                {0},
+	"sort.Slice":                               {0},
+	"(encoding/binary.bigEndian).PutUint16":    {1},
+	"(encoding/binary.bigEndian).PutUint32":    {1},
+	"(encoding/binary.bigEndian).PutUint64":    {1},
 	"(encoding/binary.littleEndian).PutUint16": {1},
 	"(encoding/binary.littleEndian).PutUint32": {1},
 	"(encoding/binary.littleEndian).PutUint64": {1},
-	"encoding/binary.Read":   {0, 2},
-	"encoding/binary.Write":  {0},
+	"encoding/binary.Read":                     {0, 2},
+	"encoding/binary.Write":                    {0},
 }
 
 // pointer-receiver stdlib methods that do NOT modify their receiver.
